@@ -119,6 +119,54 @@ theorem copy_no_shared_writes (progs : List (List (String × Nat))) (schedule : 
     (run .copy (init progs) schedule).sharedWrites = [] :=
   (run_inv progs schedule (init progs) (init_inv progs)).1
 
+/-- **Schedule independence.**  Two runs of the same evaluations under any two schedules: an evaluation that
+    has finished in both has found the same contexts in both — the interleaving cannot be observed -/
+theorem copy_schedule_independent (progs : List (List (String × Nat))) (s1 s2 : List Nat) (t : Nat)
+    (th1 th2 : Thread)
+    (h1 : (run .copy (init progs) s1).threads[t]? = some th1) (h2 : (run .copy (init progs) s2).threads[t]? = some th2)
+    (d1 : th1.todo = []) (d2 : th2.todo = []) : th1.seen = th2.seen := by
+  rw [copy_finished progs s1 t th1 h1 d1, copy_finished progs s2 t th2 h2 d2]
+
+/-- in particular a concurrent run agrees with the run in which evaluation `t` is alone in the process -/
+theorem copy_equals_alone (progs : List (List (String × Nat))) (sched sched' : List Nat) (t : Nat)
+    (th th' : Thread)
+    (h : (run .copy (init progs) sched).threads[t]? = some th) (d : th.todo = [])
+    (h' : (run .copy (init [progs.getD t []]) sched').threads[0]? = some th') (d' : th'.todo = []) :
+    th.seen = th'.seen := by
+  rw [copy_finished progs sched t th h d, copy_finished _ sched' 0 th' h' d']
+  simp
+
+/-- what an evaluation has found at any moment of any schedule is a prefix of what it finds alone:
+    no call ever finds a foreign context, finished or not -/
+theorem copy_seen_prefix (progs : List (List (String × Nat))) (schedule : List Nat) (t : Nat) (th : Thread)
+    (h : (run .copy (init progs) schedule).threads[t]? = some th) :
+    th.seen <+: alone (progs.getD t []) :=
+  ⟨alone th.todo, copy_isolated progs schedule t th h⟩
+
+/-- the number of threads never changes: no schedule creates or loses an evaluation -/
+theorem step_threads_length (p : Protocol) (s : State) (t : Nat) :
+    (step p s t).threads.length = s.threads.length := by
+  unfold step
+  split
+  · rfl
+  · split
+    · rfl
+    · cases p <;> simp
+    · simp
+
+theorem run_threads_length (p : Protocol) (schedule : List Nat) (s : State) :
+    (run p s schedule).threads.length = s.threads.length := by
+  induction schedule generalizing s with
+  | nil => rfl
+  | cons t ts ih =>
+    simp only [run, List.foldl_cons] at ih ⊢
+    rw [ih, step_threads_length]
+
+/-- a longer schedule extends a shorter one: running `s1 ++ s2` is running `s2` from where `s1` ended -/
+theorem run_append (p : Protocol) (s : State) (s1 s2 : List Nat) :
+    run p s (s1 ++ s2) = run p (run p s s1) s2 := by
+  simp [run, List.foldl_append]
+
 /-- **The model exhibits the defect.**  Writing name and context into the shared function
     object: two evaluations, one call each, schedule setup₀ setup₁ invoke₀ invoke₁ — evaluation 0
     finds evaluation 1's context, and both wrote the same shared location. -/
